@@ -535,12 +535,62 @@ func (pp *cgPipe) decidedBy(v CV, depth int, seen map[CV]bool) (errDriven, other
 			if top != nil && dc.At != top && !g.dominates(top, dc.At) {
 				continue
 			}
-			if g.errTest(dc.Cond, pp.errs) {
-				errDriven = true
+			ed, ot := pp.condDecidedBy(dc.Cond, depth+1, seen)
+			errDriven, otherThreshold = errDriven || ed, otherThreshold || ot
+		}
+	}
+	return
+}
+
+// condDecidedBy: what a branch condition tests: the Read error, the count against another threshold — directly,
+// or through a flag / small enum (x == K) whose value was chosen under such a test (phase helper).
+func (pp *cgPipe) condDecidedBy(cond CV, depth int, seen map[CV]bool) (errDriven, otherThreshold bool) {
+	g := pp.g
+	cond, _ = g.stripNot(cond, true)
+	if depth > 8 {
+		return
+	}
+	if g.errTest(cond, pp.errs) {
+		return true, false
+	}
+	if pp.classify(cond) == 2 {
+		return false, true
+	}
+	bo, ok := cond.V.(*ssa.BinOp)
+	if !ok || (bo.Op != token.EQL && bo.Op != token.NEQ) {
+		if _, isPhi := g.phiEdges(cond); isPhi {
+			return pp.decidedBy(cond, depth+1, seen)
+		}
+		return
+	}
+	x, k := g.deep(CV{cond.C, bo.X}), g.deep(CV{cond.C, bo.Y})
+	if _, isK := x.V.(*ssa.Const); isK {
+		x, k = k, x
+	}
+	if _, isK := k.V.(*ssa.Const); !isK || seen[x] {
+		return
+	}
+	edges, ok := g.phiEdges(x)
+	if !ok {
+		return
+	}
+	seen[x] = true
+	j := g.joinOf(x)
+	var top *cgNode
+	if j != nil {
+		top = j.idom
+	}
+	for _, e := range edges {
+		var conds []cgCond
+		if j != nil {
+			conds = g.condsOnEdge(e.Pred, j)
+		}
+		for _, dc := range conds {
+			if top != nil && dc.At != top && !g.dominates(top, dc.At) {
+				continue
 			}
-			if pp.classify(dc.Cond) == 2 {
-				otherThreshold = true
-			}
+			ed, ot := pp.condDecidedBy(dc.Cond, depth+1, seen)
+			errDriven, otherThreshold = errDriven || ed, otherThreshold || ot
 		}
 	}
 	return
@@ -608,7 +658,7 @@ func (x *c01Ctx) segArgs(pp *cgPipe, root string, opNode *cgNode, driver *cgLoop
 	x.counterG(pp, owner, opNode, driver, numV, pos)
 
 	// ---- nothing after last
-	x.afterLastG(pp, owner, opNode, lastV, pos)
+	x.afterLastG(pp, owner, opNode, lastV, pos, driver.Head.C)
 
 	// ---- empty message
 	x.emptyG(pp, owner, root, opNode, dataV, pos)
@@ -704,7 +754,7 @@ func (x *c01Ctx) counterG(pp *cgPipe, owner string, opNode *cgNode, driver *cgLo
 }
 
 // afterLastG: once the operation ran with last == true it cannot run again.
-func (x *c01Ctx) afterLastG(pp *cgPipe, owner string, opNode *cgNode, lastV CV, pos string) {
+func (x *c01Ctx) afterLastG(pp *cgPipe, owner string, opNode *cgNode, lastV CV, pos string, driverCtx *cgCtx) {
 	g := pp.g
 	lastR, lastBr := g.stripNot(lastV, true) // last == true means lastR == lastBr
 	type key struct {
@@ -761,6 +811,10 @@ func (x *c01Ctx) afterLastG(pp *cgPipe, owner string, opNode *cgNode, lastV CV, 
 			} else {
 				certain = true
 			}
+			return
+		}
+		// the rule concerns one run of the driver loop: do not follow control out of the function that holds it
+		if _, isRet := n.last().(*ssa.Return); isRet && driverCtx != nil && n.C == driverCtx {
 			return
 		}
 		if len(n.succs) != 2 {
@@ -942,6 +996,53 @@ func (x *c01Ctx) emptyG(pp *cgPipe, owner, root string, opNode *cgNode, dataV CV
 			clean = true
 		}
 	}
+	if !clean {
+		// is every test of the count in front of the operation understood? otherwise the empty case may be handled by one that is not
+		var derived map[CV]bool
+		recognised := map[*cgNode]bool{}
+		for _, gd := range guards {
+			recognised[gd.c.At] = true
+		}
+		for _, dc := range g.domConds(opNode) {
+			if recognised[dc.At] || pp.classify(dc.Cond) != 0 {
+				continue
+			}
+			// a comparison of (count +/- k) with something resolvable, or a boolean with a known relation to the
+			// look-ahead decision, is understood (it is simply not a zero-length test)
+			if t := pp.evalD(dc.Cond, dc.At, 0, false); t != triU {
+				continue
+			}
+			if cmp, ok := g.decode(dc.Cond, dc.Branch); ok {
+				understood := true
+				for _, pv := range []bool{true, false} {
+					if _, ok := pp.linWhen(cmp.X, dc.At, pv, 0); !ok {
+						understood = false
+					}
+					if _, ok := pp.linWhen(cmp.Y, dc.At, pv, 0); !ok {
+						understood = false
+					}
+				}
+				lx, _ := pp.linWhen(cmp.X, dc.At, true, 0)
+				ly, _ := pp.linWhen(cmp.Y, dc.At, true, 0)
+				if understood && (lx.Base == pp.marker() || lx.isConst()) && (ly.Base == pp.marker() || ly.isConst() || ly == (cgLin{pp.bound.Base, ly.K})) {
+					continue
+				}
+			}
+			if derived == nil {
+				var seeds []CV
+				for v := range pp.core {
+					seeds = append(seeds, v)
+				}
+				derived = g.flowFrom(seeds, func(CV) bool { return true })
+			}
+			c0, _ := g.stripNot(dc.Cond, true)
+			related := derived[c0]
+			if related {
+				r.Undecide("C01.R6: a test of the filled count in front of the segment operation of %s is not classified; whether an empty input reaches a clean Close is not decided", root)
+				return
+			}
+		}
+	}
 	r.Check(clean, "C01.R6-empty-message", cons, pos, "a zero-length test guards the segment operation and its empty side reaches a clean Close",
 		"when no byte was read every zero-length test in front of the segment operation leads to an error on the stream (or to the operation itself) and never to a clean Close: an empty message yields a stream error or an empty 16-byte segment, but the spec says an empty file has no segment at all and must round-trip")
 }
@@ -968,41 +1069,44 @@ func (x *c01Ctx) carryOverG(pp *cgPipe, owner string, fill *cgRead, pos string) 
 		}
 		return (l.Base == pp.marker() && l.K == -1) || (l == cgLin{pp.bound.Base, pp.bound.K - 1})
 	}
+	// writes to the start of the fill buffer: buf[0] = v, or copy(buf[0:…], src)
 	type st struct {
-		n   *cgNode
-		val CV
-		in  *ssa.Store
+		n    *cgNode
+		val  CV // stored value (store form)
+		src  CV // source slice (copy form)
+		call CV // the copy call (copy form)
+		pos  string
 	}
 	var stores []st
 	g.eachInstr(func(n *cgNode, in ssa.Instruction) {
-		s, ok := in.(*ssa.Store)
-		if !ok {
-			return
-		}
-		ia, ok := g.res(CV{n.C, s.Addr}).V.(*ssa.IndexAddr)
-		if !ok || g.objKey(CV{n.C, ia.X}) != bufKey {
-			return
-		}
-		if k, ok := g.constInt(CV{n.C, ia.Index}); ok && k == 0 {
-			stores = append(stores, st{n, CV{n.C, s.Val}, s})
+		switch y := in.(type) {
+		case *ssa.Store:
+			ia, ok := g.res(CV{n.C, y.Addr}).V.(*ssa.IndexAddr)
+			if !ok || g.objKey(CV{n.C, ia.X}) != bufKey {
+				return
+			}
+			if k, ok := g.constInt(CV{n.C, ia.Index}); ok && k == 0 {
+				stores = append(stores, st{n: n, val: CV{n.C, y.Val}, pos: x.p.Pos(y.Pos())})
+			}
+		case *ssa.Call:
+			if builtinName(y) != "copy" || len(y.Call.Args) != 2 {
+				return
+			}
+			dst := CV{n.C, y.Call.Args[0]}
+			if g.objKey(dst) != bufKey || !g.sliceLowZero(dst, 0) {
+				return
+			}
+			// not the hand-over of the whole segment somewhere else: the source is not the buffer's own start
+			stores = append(stores, st{n: n, src: CV{n.C, y.Call.Args[1]}, call: CV{n.C, y}, pos: x.p.Pos(y.Pos())})
 		}
 	})
 	if len(stores) == 0 {
 		r.Violation("C01.R5-segment-args", cons, pos, "a look-ahead byte is read to detect the end of the input but nothing ever stores it at the start of the buffer for the next segment: one plaintext byte is lost at every segment boundary")
 		return
 	}
-	for _, s := range stores {
-		carries := false
-		for v := range g.cone(s.val) {
-			if isLookaheadLoad(v) {
-				carries = true
-			}
-		}
-		if !carries {
-			r.Violation("C01.R5-segment-args", cons, x.p.Pos(s.in.Pos()), "the byte stored at the start of the buffer for the next segment is not the look-ahead byte buffer[count-1]: a wrong byte is injected at every segment boundary")
-			return
-		}
-		restart := false
+	// does the total restart from v (a constant 1, or the number of bytes copy() moved)?
+	restartsFrom := func(want func(CV) bool, after *cgNode) bool {
+		found := false
 		var look func(v CV, d int)
 		look = func(v CV, d int) {
 			edges, ok := g.phiEdges(v)
@@ -1010,13 +1114,12 @@ func (x *c01Ctx) carryOverG(pp *cgPipe, owner string, fill *cgRead, pos string) 
 				return
 			}
 			for _, e := range edges {
-				if k, ok := g.constInt(e.Val); ok {
-					if k == 1 && (e.Pred == s.n || g.dominates(s.n, e.Pred)) {
-						restart = true
-					}
+				ev := g.res(e.Val)
+				if want(ev) && (after == nil || e.Pred == after || g.dominates(after, e.Pred)) {
+					found = true
 					continue
 				}
-				if ev := g.res(e.Val); !pp.core[ev] && g.constLike(ev, 0) {
+				if !pp.core[ev] && g.constLike(ev, 0) {
 					look(ev, d+1)
 				}
 			}
@@ -1024,8 +1127,76 @@ func (x *c01Ctx) carryOverG(pp *cgPipe, owner string, fill *cgRead, pos string) 
 		for v := range pp.core {
 			look(v, 0)
 		}
-		if !restart {
-			r.Violation("C01.R5-segment-args", cons, x.p.Pos(s.in.Pos()), "after restoring the look-ahead byte at buffer[0] the running count does not restart at 1: the restored byte is overwritten by the next Read (or counted twice)")
+		return found
+	}
+	for _, s := range stores {
+		if s.call.ok() {
+			// copy form: the source holds the look-ahead byte, the count restarts from copy's result
+			srcRoot := g.sliceRoot(s.src)
+			srcKey := g.objKey(s.src)
+			carries := false
+			if srcKey == bufKey {
+				// copy(buf, buf[count-1:count])
+				if sl, ok := g.deep(s.src).V.(*ssa.Slice); ok && sl.Low != nil {
+					if l, ok := pp.linWhen(CV{g.deep(s.src).C, sl.Low}, s.n, true, 0); ok && ((l.Base == pp.marker() && l.K == -1) || (l == cgLin{pp.bound.Base, pp.bound.K - 1})) {
+						carries = true
+					}
+				}
+			} else {
+				g.eachInstr(func(n *cgNode, in ssa.Instruction) {
+					y, ok := in.(*ssa.Store)
+					if !ok {
+						return
+					}
+					ia, ok := g.res(CV{n.C, y.Addr}).V.(*ssa.IndexAddr)
+					if !ok || g.objKey(CV{n.C, ia.X}) != srcKey {
+						return
+					}
+					for v := range g.cone(CV{n.C, y.Val}) {
+						if isLookaheadLoad(v) {
+							carries = true
+						}
+					}
+				})
+			}
+			_ = srcRoot
+			// the number of bytes copied back (the source window's length) must be able to be 1
+			if sl, ok := g.deep(s.src).V.(*ssa.Slice); ok && sl.High != nil && srcKey != bufKey {
+				one := false
+				for _, hv := range g.sources(CV{g.deep(s.src).C, sl.High}) {
+					if k, ok := g.constInt(hv); ok && k == 1 {
+						one = true
+					}
+				}
+				if !one {
+					r.Violation("C01.R5-segment-args", cons, s.pos, "the look-ahead byte is kept aside, but the length copied back to the start of the buffer is never 1: the byte is lost at every segment boundary")
+					return
+				}
+			}
+			if !carries {
+				r.Undecide("C01.R5: %s refills the start of the buffer with copy() from a source whose content is not visibly the look-ahead byte", owner)
+				return
+			}
+			call := g.res(s.call)
+			if !restartsFrom(func(v CV) bool { return v == call }, nil) {
+				r.Violation("C01.R5-segment-args", cons, s.pos, "after copying the look-ahead byte back to the start of the buffer the running count does not restart from the number of bytes copied: the restored byte is overwritten by the next Read (or counted twice)")
+				return
+			}
+			continue
+		}
+		carries := false
+		for v := range g.cone(s.val) {
+			if isLookaheadLoad(v) {
+				carries = true
+			}
+		}
+		if !carries {
+			r.Violation("C01.R5-segment-args", cons, s.pos, "the byte stored at the start of the buffer for the next segment is not the look-ahead byte buffer[count-1]: a wrong byte is injected at every segment boundary")
+			return
+		}
+		sn := s.n
+		if !restartsFrom(func(v CV) bool { k, ok := g.constInt(v); return ok && k == 1 }, sn) {
+			r.Violation("C01.R5-segment-args", cons, s.pos, "after restoring the look-ahead byte at buffer[0] the running count does not restart at 1: the restored byte is overwritten by the next Read (or counted twice)")
 			return
 		}
 	}
